@@ -20,9 +20,10 @@ claim("C10", "proof",
       "Every depth 1..32, every message size, every slack and every invariant-satisfying state is covered symbolically per operation; the invariant is inductive, so every sequential history the API permits is covered.",
       "Sequential semantics of the atomics (CBMC model). 1 << 31 (shift into the sign bit) is an accepted check class.",
       "DESIGN.md 5.C10")
-mut("C10", "claim-wrap-queue-len", [("librfn/messageq.c", "newsendp = (sendp >= (mq->queue_len-1) ? 0 : sendp+1);", "newsendp = (sendp >= mq->queue_len ? 0 : sendp+1);")], r"claim")
-mut("C10", "receive-wrap-queue-len", [("librfn/messageq.c", "(receivep >= (unsigned int)(mq->queue_len - 1) ? 0 : receivep + 1);", "(receivep >= (unsigned int)(mq->queue_len) ? 0 : receivep + 1);")], r"receive")
+mut("C10", "claim-wrap-queue-len", [("librfn/messageq.c", "newsendp = (sendp >= (mq->queue_len-1) ? 0 : sendp+1);", "newsendp = (sendp >= mq->queue_len ? 0 : sendp+1);")], r"claim", skip_tests=True)
+mut("C10", "receive-wrap-queue-len", [("librfn/messageq.c", "(receivep >= (unsigned int)(mq->queue_len - 1) ? 0 : receivep + 1);", "(receivep >= (unsigned int)(mq->queue_len) ? 0 : receivep + 1);")], r"receive", skip_tests=True)
 mut("C10", "send-flag-mask-15", [("librfn/messageq.c", "atomic_fetch_or(&mq->full_flags, (1 << sendp));", "atomic_fetch_or(&mq->full_flags, (1 << (sendp & 15)));")], r"send")
 mut("C10", "empty-tests-sendp", [("include/librfn/messageq.h", "(1 << mq->receivep));", "(1 << (mq->receivep ? mq->receivep : mq->sendp)));")], r"messageq_empty")
 mut("C10", "init-rounds-up", [("librfn/messageq.c", "\tmq->queue_len = base_len / msg_len;", "\tmq->queue_len = (base_len + msg_len - 1) / msg_len;")], r"init|initialiser")
 mut("C10", "receive-advances-when-empty", [("librfn/messageq.c", "\tif (0 == (full_flags & (1 << receivep)))\n\t\treturn NULL;\n", "\tif (0 == (full_flags & (1 << receivep)) && mq->queue_len > 1)\n\t\treturn NULL;\n")], r"receive")
+mut("C10", "claim-wrap-masked-32", [("librfn/messageq.c", "newsendp = (sendp >= (mq->queue_len-1) ? 0 : sendp+1);", "newsendp = ((((sendp + 1) & 31) >= mq->queue_len) ? 0 : sendp+1);")], r"claim")
